@@ -8,6 +8,7 @@ from __future__ import annotations
 import itertools
 import os
 
+from . import common
 from .common import Check, cmat, fmt_ints, fmt_matrix, kv
 
 THEOREMS = [
@@ -715,5 +716,17 @@ def check(ck: Check) -> None:
         "overflow uint64 (QAPLIB values up to 10^15 each): trivial_bounds then wraps modulo 2^64 (e.g. D=[[2^62]], F=[[4]] gives "
         "lb=ub=0); the model wraps identically (streams `overflow`, `negative`)",
     ]
-    ck.lean(["Props.C09"], THEOREMS)
+    modules, theorems = ["Props.C09"], list(THEOREMS)
+    # tie between source and model: lean/Gen/QapEval.lean is regenerated from the CURRENT source of _evaluate and
+    # Props/C09Gen.lean proves that the hand-written model `Qap.qapEval?` is its int64 wrap, for all inputs
+    try:
+        from .translate import loop2lean
+        ck.gen_begin()   # released at the end of ck.lean
+        loop2lean.emit_qap_eval(common.REPO, common.LEAN)
+        modules.append("Props.C09Gen")
+        theorems.append("C09Gen.evaluate_eq_model")
+    except Exception as e:  # noqa: BLE001 - source outside the translatable subset: the obligation cannot be regenerated
+        ck.proof_failures.append(f"translator loop2lean: _evaluate is not translatable, the theorem "
+                                 f"C09Gen.evaluate_eq_model could not be re-checked against the source: {e!r}")
+    ck.lean(modules, theorems)
     streams(ck)
